@@ -426,6 +426,25 @@ pub open spec fn wlen(e: Expression) -> nat
         Expression::Repetition(x, _, _, _, _) => wlen(*x),
     }
 }
+// length of the text an expression matches, counted in graphemes of the test cases: a repeated substring counts with its repetitions.  This is what the sort key
+// of alternatives has to be for C08 (longer alternatives first, so that a search never stops at a shorter test case that is a prefix of the one searched).
+pub open spec fn glen(g: Grapheme) -> nat { g.chars@.len() * (g.max as nat) }
+pub open spec fn lit_mlen(gs: Seq<Grapheme>) -> nat
+    decreases gs.len()
+{
+    if gs.len() == 0 { 0 } else { glen(gs[0]) + lit_mlen(gs.drop_first()) }
+}
+pub open spec fn mlen(e: Expression) -> nat
+    decreases e
+{
+    match e {
+        Expression::Alternation(opts, _, _, _) => if opts@.len() > 0 { mlen(opts@[0]) } else { 0 },
+        Expression::CharacterClass(_, _) => 1,
+        Expression::Concatenation(a, b, _, _, _) => mlen(*a) + mlen(*b),
+        Expression::Literal(c, _, _) => lit_mlen(c.graphemes@),
+        Expression::Repetition(x, _, _, _, _) => mlen(*x),
+    }
+}
 pub open spec fn alts_nonempty(e: Expression) -> bool
     decreases e
 {
